@@ -2,3 +2,4 @@ INIT Init
 NEXT Next
 CONSTANTS
   MaxLen = 3
+  NTexts = 4
